@@ -168,7 +168,7 @@ def check_wrap(cfg, crate, rep):
     conds = [k[0] for k in kids[2:]]
     kinds = []
     for cnd, reps, node in kids[2:]:
-        vs = S._variants_of(cnd) or []
+        vs = S._variants_of(cnd) or _sole_kind(node)
         kinds += vs
         a0 = node["args"][0]
         rts = roots(a0)
@@ -197,6 +197,14 @@ def check_wrap(cfg, crate, rep):
     want_kinds = {"Remote"} if cfg == "K3" else {"Ec", "Ed", "Rsa", "Remote"}
     rep.ob("C01.wrap", key + "|kinds", set(kinds) == want_kinds, "one signature arm per key kind", expected=sorted(want_kinds), found=sorted(kinds))
     rep.sample({"rule": "C01.wrap", "cfg": cfg, "outer": S.render(I, outer)[:12]})
+
+
+def _sole_kind(node):
+    """an unconditional signature leaf (a build whose key enum has one variant, matched irrefutably and the result written
+    once): the kind is the one variant whose payload the written value is computed from"""
+    import re as _re
+    ks = {m_.group(1) for p_ in places(node["args"][0]) for m_ in [_re.search(r"\.kind#(\w+)", p_)] if m_} if node.get("args") else set()
+    return sorted(ks) if len(ks) == 1 else []
 
 
 def check_sign_arms(cfg, crate, rep):
@@ -239,6 +247,9 @@ def check_artefacts(cfg, crate, rep):
         # the signature arms are keyed on the signer's kind
         for cnd, reps, node in outer_kids[2:]:
             pl = {a[1] for a in F.atoms(cnd) if a[0] == "variant"}
+            if not pl and _sole_kind(node):
+                import re as _re
+                pl = {_re.sub(r"#\w+.*$", "", p_) for p_ in places(node["args"][0]) if ".kind#" in p_}
             rep.ob("C01.signer", key + "|sig-key|" + ",".join(S._variants_of(cnd) or []), pl == {signer + ".kind"}, "signature is made with the %s" % ("issuer key" if kind != "csr" else "requester's own key"), expected=signer + ".kind", found=sorted(pl), sp=node.get("sp"))
         tbs_kids = S.flatten(art.tbs[0]["c"]) if art.tbs and art.tbs[0]["t"] == "Seq" else []
         if kind in ("cert", "crl"):
